@@ -29,7 +29,7 @@ from vlib.elf import Elf
 
 PROP = "C32"
 META = {
-    "ready": False,
+    "ready": True,
     "level": "model_checking",
     "technique": "TLA+ spec of GNU ld's version-script matching precedence and of wild's find_match, enumerated exhaustively by TLC over small scripts; enumerated scripts replayed into the real wild and GNU ld; version tables of the outputs validated by TLC against a TLA+ consistency predicate",
     "level_text": "TLC enumerates all version scripts with up to 3 nodes and up to 2 patterns per global/local list over 6 patterns (exact names, ?-globs, *-globs, lone *) x 4 symbol names and compares GNU ld's precedence rule with the transcription of wild's matcher; a seeded sample of the scripts (hundreds quick, thousands thorough) is linked for real with wild and GNU ld 2.40: the rule must equal GNU ld on every script and wild's exported set and per-symbol version node must equal the rule; the .gnu.version/.gnu.version_d/.gnu.version_r tables of every wild output are checked by TLC for internal consistency (indexes, hashes, chains, ranges, DT_NEEDED).",
